@@ -26,10 +26,12 @@ static void sequence(vh::SplitMix& rng, int maxOps, long long it) {
   std::string hist;
   bool mismatchRef = false;
   int nops = 1 + (int)rng.below(maxOps);
+  int forcedKind = -1, forcedSrc = -1;     // follow-up on a spilled vector that was shrunk back to <= N elements
   for (int k = 0; k < nops + 1000; ++k) {
     bool finishing = k >= nops;
     if (finishing && objs.empty()) break;
     int kind = finishing ? 12 : (int)rng.below(14);
+    if (!finishing && forcedKind >= 0 && objs.count(forcedSrc)) kind = forcedKind;
     auto pick = [&]() -> int {
       if (objs.empty()) return -1;
       auto itr = objs.begin();
@@ -37,6 +39,8 @@ static void sequence(vh::SplitMix& rng, int maxOps, long long it) {
       return itr->first;
     };
     int a = pick(), b = pick();
+    if (!finishing && forcedKind >= 0 && objs.count(forcedSrc)) { if (kind == 4 || kind == 5) b = forcedSrc; else a = forcedSrc; }
+    forcedKind = -1;
     int x = 1 + (int)rng.below(90);
     int n = (int)rng.below(2 * N + 3);
     char req[96];
@@ -70,6 +74,10 @@ static void sequence(vh::SplitMix& rng, int maxOps, long long it) {
     for (size_t i = 0; i < d.size() && i < r.size(); ++i) if (d[i].v != r[i].v) mismatchRef = true;
     if (!r.empty() && (d.front().v != r.front().v || d.back().v != r.back().v)) mismatchRef = true;
     if (d.capacity() < d.size()) mismatchRef = true;
+    if ((kind == 7 || kind == 8 || kind == 11) && d.capacity() > N && d.size() >= 1 && d.size() <= N && rng.coin()) {
+      static const int follow[] = {5, 5, 5, 4, 3, 2};
+      forcedKind = follow[rng.below(6)]; forcedSrc = dstId;
+    }
   }
   ++cases;
   if (mismatchRef) std::printf("PFAIL SmallVector differs from std::vector | N=%zu ops=%s\n", N, hist.c_str());
